@@ -136,6 +136,8 @@ def run_job(job, scratch_root, keep=False):
     cc += job["cc_flags"]
     for c in job["contracts"]:
         cc += ["-include", os.path.join(VERIF, "contracts", c)]
+    if not job["loops"]:
+        cc.append("-DVERIF_NO_LC")   # loops of this job are unwound: compile the sources without loop-contract clauses
     cc += ["-include", os.path.join(sdir, "lc_defs.h")]
     cc += ["--function", entry, harness, "-o", a]
     rc, out, err, _ = sh(cc, cwd=wd, timeout=300)
